@@ -7,13 +7,13 @@ from sa.astx import call_name, dotted, lincmp, lin_expect, src, walk_local
 from sa.effects import accesses, class_accesses
 from sa.selftest import Mutant, Silent
 from sa.source import methods
-from sa.props._lib_d import Inliner, resolve_locals
+from sa.props._lib_d import Inliner, resolve_locals, undecided_tests
 from sa.props._lib_d import (NONNULL, call_nodes, calls_with, const_value_is, implied, is_self_attr, must_pass_under,
                              path_under, reach_under, self_assigns, slice_parts, succ_of)
 
 PROPERTY = "C14"
 ABS = "internet/abstract.py"
-TECHNIQUE = "CFG dominance, path-sensitive decision table, coupled-field and who-may-write effects"
+TECHNIQUE = "CFG dominance/must-pass on inlined views; exhaustive 32-row guard table; effects closure"
 EXPLANATION = (
     "Decides on abstract.py: (a) _tempDataBuffer and _tempDataLen move together (append/+=len of the same value, "
     "extend/sum over the same iterable, reset pair) and are touched only by __init__/write/writeSequence/doWrite; "
@@ -29,7 +29,20 @@ EXPLANATION = (
     "(f) loseConnection/loseWriteConnection/unregisterProducer record the request and wake the writer instead of closing; "
     "registerProducer/connectionLost keep producer state coupled. Not decided: the exact byte stream under adversarial "
     "partial writes (value-level), subclasses' writeSomeData."
+    " METHODS: every clause has a structural decider (CFG dominance / must-pass / must-precede on views with unknown private helpers inlined, def-use, "
+    "coupled-field effects, who-may-write closure, lincmp normal form); the drained-buffer decision table is finite-exhaustive (all 32 assignments of the five state "
+    "attributes, completeness of that domain checked per run). No clause rests on bounded evidence."
 )
+RULE_KINDS = {
+    # CFG dominance / must-pass-through / must-precede on the normalised view (unknown private helpers inlined), def-use of the sent slice and the
+    # accepted count, coupled-field effects, who-may-write closed over the class call graph, lincmp normal form of the fullness test.  Rules that
+    # fix some state attributes ("connected and disconnecting") follow only the branch outcomes consistent with them and BOTH outcomes of every other
+    # test, so the verdict holds for every value of everything not fixed: a for-all over paths.
+    "*": "structural",
+    # every truth assignment of the five state attributes the drained-buffer tail of doWrite branches on (2^5 = 32 rows); completeness of that domain
+    # is checked on each run: under a full assignment no test of the region is left undecided (undecided_tests), i.e. the tail reads nothing else
+    "dowrite/table": "finite-exhaustive",
+}
 ASSUMPTIONS = [
     "startWriting/stopWriting/stopReading and writeSomeData do not modify the buffering attributes of the descriptor",
     "subclasses honour the writeSomeData contract (count accepted, or an exception object)",
@@ -373,6 +386,13 @@ def check(ctx):
                                      f"disconnecting={disc} writeDisconnecting={wdisc}>")
                             c = q + " | " + label
                             R = reach_under(g, facts, srcs=starts)
+                            und = undecided_tests(g, facts, srcs=starts)
+                            if und and rows == 0:
+                                # the verdicts below still hold for every value of whatever else is read (both outcomes of an undecided test are followed);
+                                # only the claim "these 32 rows are all there is" is not established on this tree
+                                ctx.note("dowrite/table: the drained-buffer tail of doWrite also branches on " + src(g.node(und[0]).ast) +
+                                         ", which is outside (producer, streamingProducer, producerPaused, disconnecting, _writeDisconnecting): the table is "
+                                         "evaluated with that test free")
                             rows += 1
                             must_resume = prod is not None and (not streaming or paused)
                             pull = prod is not None and not streaming
